@@ -116,7 +116,17 @@ def run_detect(u):
             got = (i, j) in rec
             if mode in ('DIRECT', 'TREE'):
                 spec = z3.And(sum(a * a for a in dx) <= rs * rs, sum(a * b for a, b in zip(dx, dv)) <= 0)
-                ob.prove("pair (%d,%d) %s <=> overlapping and approaching" % (i, j, 'reported' if got else 'not reported'), spec if got else z3.Not(spec), pc, axioms=dom.axioms, on_sat=on_sat, domain='REAL')
+                # the branch conditions of the code and the specification are polynomial inequalities in the same monomials: after expanding both
+                # (sum-of-monomials form) and abstracting each monomial by a fresh constant the obligation is linear; the full non-linear query
+                # is only tried when the abstraction does not settle it
+                lin_ = Lineariser(som=True)
+                g_ = spec if got else z3.Not(spec)
+                r_ = prover.check([lin_(c_) for c_ in pc] + [z3.Not(lin_(g_))]); rep.queries += 1
+                if r_.status == 'unsat':
+                    rep.obligations += 1; rep.discharged += 1
+                    if len(rep.samples) < 6: rep.sample(obligation=label + "pair (%d,%d) <=> overlapping and approaching" % (i, j), domain='LRA after monomial abstraction', verdict='unsat')
+                else:
+                    ob.prove("pair (%d,%d) %s <=> overlapping and approaching" % (i, j, 'reported' if got else 'not reported'), g_, pc, axioms=dom.axioms, on_sat=on_sat, domain='REAL')
             else:
                 tau = z3.Real('tau')
                 dist2 = sum((a - tau * dtl * b) * (a - tau * dtl * b) for a, b in zip(dx, dv))
